@@ -167,6 +167,8 @@ fn run<N: ArrayLength>(sc: &str, f: usize, b: usize, skip: usize) {
         "iter.drop" => { let it = position::<N>(f, b); drop(it); }
         "iter.next" => { let mut it = position::<N>(f, b); let _ = it.next(); }
         "iter.next_back" => { let mut it = position::<N>(f, b); let _ = it.next_back(); }
+        "iter.fold" => { let it = position::<N>(f, b); let _ = it.fold(0usize, |acc, x| { tick(); acc + x.0 }); }
+        "iter.rfold" => { let it = position::<N>(f, b); let _ = it.rfold(0usize, |acc, x| { tick(); acc + x.0 }); }
         "iter.clone" => { let it = position::<N>(f, b); let r = catch_unwind(AssertUnwindSafe(|| it.clone())); drop(it); match r { Ok(c) => drop(c), Err(e) => std::panic::resume_unwind(e) } }
         "generate" => { let a: GenericArray<E, N> = GenericArray::generate(|i| { tick(); E::new(i) }); drop(a); }
         "box_generate" => { let a = Box::<GenericArray<E, N>>::generate(|i| { tick(); E::new(i) }); drop(a); }
